@@ -151,6 +151,7 @@ def run(ctx):
         ctx.ob("R18.2", name, v == want, "src/dtoolbase/pdtoa.cxx:%d" % (g["line"] if g else 0), "%s = %s (IEEE-754 binary64: %s)" % (name, v, want))
 
     _diyfp_formulas(ctx)
+    _diyfp_product(ctx)
     # ------------------------------------------------------------ R18.3
     ps = db.fn("pstrtod")
     n_l = 0
@@ -395,3 +396,147 @@ def _ev_u64(db, n, env):
         return int(n["v"])
     raise ValueError("node %s in %s" % (k, show(n)[:30]))
 
+
+
+def _width(ty):
+    ty = (ty or "").replace("const ", "").strip()
+    if ty in ("unsigned __int128",):
+        return 128
+    if ty in ("uint64_t", "unsigned long", "unsigned long long", "size_t"):
+        return 64
+    if ty in ("uint32_t", "unsigned int", "unsigned"):
+        return 32
+    return None
+
+
+def _evw(db, n, env):
+    """Expression evaluation with C++ unsigned widths: every cast to an unsigned type and every operator whose result
+    type is unsigned wraps at that width.  env: local/param/member short names -> ints."""
+    if n is None:
+        raise ValueError("empty")
+    k = n.get("k")
+    if k in ("paren", "bind", "temp", "expr") and n.get("e") is not None:
+        return _evw(db, n["e"], env)
+    if k == "cast":
+        v = _evw(db, n["e"], env)
+        w = _width(n.get("ty"))
+        return v & ((1 << w) - 1) if w else v
+    if k in ("int", "chr", "bool"):
+        return int(n["v"])
+    if k == "ref":
+        if n.get("dk") == "enumc":
+            return int(n["v"])
+        if n["n"] in env:
+            return env[n["n"]]
+        raise ValueError("unknown name " + n["n"])
+    if k == "mem":
+        nm = n["n"].split("::")[-1]
+        b = peel(n.get("b"))
+        if b is not None and b.get("k") == "ref":
+            nm = b["n"] + "." + nm
+        if nm in env:
+            return env[nm]
+        raise ValueError("unknown member " + nm)
+    if k == "bin":
+        a, b = _evw(db, n["x"], env), _evw(db, n["y"], env)
+        op = n["op"]
+        r = {"+": lambda: a + b, "-": lambda: a - b, "*": lambda: a * b, "<<": lambda: a << b, ">>": lambda: a >> b, "&": lambda: a & b,
+             "|": lambda: a | b, "^": lambda: a ^ b, "&&": lambda: int(bool(a) and bool(b)), "||": lambda: int(bool(a) or bool(b)),
+             "==": lambda: int(a == b), "!=": lambda: int(a != b), "<": lambda: int(a < b), ">": lambda: int(a > b),
+             "<=": lambda: int(a <= b), ">=": lambda: int(a >= b)}.get(op)
+        if r is None:
+            raise ValueError("operator " + op)
+        v = r()
+        w = _width(n.get("t"))
+        return v & ((1 << w) - 1) if w else v
+    if k == "un" and n.get("op") in ("-", "~", "!"):
+        v = _evw(db, n["e"], env)
+        return {"-": -v, "~": ~v, "!": int(not v)}[n["op"]]
+    if k == "cond":
+        return _evw(db, n["x"], env) if _evw(db, n["c"], env) else _evw(db, n["y"], env)
+    raise ValueError("node " + str(k))
+
+
+def _run(db, st, env, types):
+    """Run a statement tree (block / decls / if / ++ / += / assignment / return of a two-argument constructor).
+    Returns the tuple of the returned constructor's arguments, or None if the statement falls through."""
+    k = st.get("k")
+    if k == "block":
+        for s in st.get("s", []):
+            r = _run(db, s, env, types)
+            if r is not None:
+                return r
+        return None
+    if k == "decls":
+        for d in st["d"]:
+            w = _width(d.get("ct")) or _width(d.get("t"))
+            types[d["n"]] = w
+            v = _evw(db, d["init"], env) if d.get("init") is not None else 0
+            env[d["n"]] = v & ((1 << w) - 1) if w else v
+        return None
+    if k == "if":
+        if _evw(db, st["c"], env):
+            return _run(db, st["then"], env, types) if st.get("then") else None
+        return _run(db, st["else"], env, types) if st.get("else") else None
+    if k == "un" and st.get("op") in ("++", "post++", "--", "post--"):
+        r = st["e"]
+        if r.get("k") != "ref":
+            raise ValueError("++ on " + str(r.get("k")))
+        w = types.get(r["n"])
+        v = env[r["n"]] + (1 if "++" in st["op"] else -1)
+        env[r["n"]] = v & ((1 << w) - 1) if w else v
+        return None
+    if k == "bin" and st.get("op") in ("=", "+=", "-="):
+        r = st["x"]
+        if r.get("k") != "ref":
+            raise ValueError("assignment to " + str(r.get("k")))
+        v = _evw(db, st["y"], env)
+        if st["op"] == "+=":
+            v = env[r["n"]] + v
+        elif st["op"] == "-=":
+            v = env[r["n"]] - v
+        w = types.get(r["n"])
+        env[r["n"]] = v & ((1 << w) - 1) if w else v
+        return None
+    if k == "ret":
+        e = st.get("e")
+        while e is not None and e.get("k") in ("temp", "bind", "cast", "paren") and e.get("e") is not None:
+            e = e["e"]
+        if e is None or e.get("k") != "ctor":
+            raise ValueError("return of " + str((e or {}).get("k")))
+        return tuple(_evw(db, a, env) for a in e.get("a", []))
+    raise ValueError("statement " + str(k))
+
+
+def _diyfp_product(ctx):
+    """R18.7: Grisu2's cached-power product is the ROUNDED upper half of the 128-bit product, h = (f*g + 2^63) >> 64
+    (Loitsch 2010, def. 3.3: the 0.5 ulp this rounding guarantees is what the interval arithmetic budgets for); a
+    truncating product makes the lower boundary up to 1 ulp too low and pdtoa emits digits that read back as the
+    neighbouring double.  The branch analysed is the one the real compiler selects (flags.json: -fgnuc-version).
+    (Seed S6-C18.)"""
+    db = ctx.db
+    ctx.rule("R18.7", "DiyFp::operator*, run from its statement tree on sample operands, returns (round-half-up((f * rhs.f) / 2^64), e + rhs.e + 64)")
+    fs = [f for f in db.functions if f.name == "DiyFp::operator*"]
+    if not fs:
+        ctx.broken("R18.7: DiyFp::operator* not found")
+    f = fs[0]
+    M = (1 << 64) - 1
+    samples = [(1 << 63, 1 << 63), (M, M), ((1 << 63) + 1, (1 << 63) + 1), (0x8000000000000001, 0xFFFFFFFFFFFFFFFF), (0xA5A5A5A5A5A5A5A5, 0xC3C3C3C3C3C3C3C3),
+               (0xFA8FD5A0081C0288, 0x8000000000000000), (0xD3C21BCECCEDA100, 0x9C40000000000000), (0x8000000000000000, 0xFFFFFFFF00000001),
+               (0xDE0B6B3A76400000, 0xE8D4A51000000001), (1 << 63, (1 << 63) | 1), (0xFFFFFFFFFFFFFFFF, 0x8000000000000001)]
+    bad = []
+    n = 0
+    try:
+        for (a, b) in samples:
+            for (ea, eb) in ((0, 0), (-1074, 3), (971, -1200)):
+                n += 1
+                env = {"f": a, "e": ea, "rhs.f": b, "rhs.e": eb}
+                got = _run(db, f.d["body"], env, {})
+                want = (((a * b) + (1 << 63)) >> 64, ea + eb + 64)
+                if got != want and len(bad) < 3:
+                    bad.append("f=%#x g=%#x: got %s, rounded product is %s" % (a, b, got, want))
+    except ValueError as e:
+        ctx.ob("R18.7", "DiyFp::operator*|rounded-upper-half", False, f.loc(), "not evaluable: %s" % e)
+        return
+    ctx.ob("R18.7", "DiyFp::operator*|rounded-upper-half", not bad, f.loc(), "%d sample products: %s" % (n, "; ".join(bad) if bad else "all equal the rounded upper half"))
+    ctx.floor("R18.7", "sample products evaluated", n, 30)
